@@ -213,8 +213,22 @@ func TestVerifC07ValidUnusual(t *testing.T) {
 			if lastIsPSK {
 				movable--
 			}
-			op := []string{"strictBody", "strictBody", "addStrict", "addStrict", "drop", "swap"}[rapid.IntRange(0, 5).Draw(rt, l+"_op")]
+			op := []string{"strictBody", "strictBody", "addStrict", "addStrict", "drop", "swap", "versions"}[rapid.IntRange(0, 6).Draw(rt, l+"_op")]
 			switch op {
+			case "versions":
+				// record-layer version and legacy_version in any combination of 0x0301..0x0304 (a capture is not obliged
+				// to have them ordered), with or without a supported_versions extension
+				m.RecVer = uint16(0x0301 + rapid.IntRange(0, 3).Draw(rt, l+"_recver"))
+				m.Ver = uint16(0x0301 + rapid.IntRange(0, 3).Draw(rt, l+"_hellover"))
+				if rapid.Bool().Draw(rt, l+"_drop_supported_versions") {
+					var keep []vf07Ext
+					for _, e := range m.Exts {
+						if e.Typ != 43 {
+							keep = append(keep, e)
+						}
+					}
+					m.Exts = keep
+				}
 			case "strictBody":
 				if len(m.Exts) > 0 {
 					i := rapid.IntRange(0, len(m.Exts)-1).Draw(rt, l+"_i")
